@@ -343,7 +343,7 @@ class ODLDecoder(PVLDecoder):
                 if not isinstance(dt, (datetime, time)):
                     # A date or a leap-second text cannot carry an offset.
                     raise ValueError
-                if gd["dt"].endswith("Z"):
+                if gd["dt"].endswith(("Z", "z")):
                     # Already marked as UTC, cannot have an offset, too.
                     raise ValueError
                 offset = timedelta(
